@@ -375,3 +375,31 @@ func (s *VerifStore) HasManifest(ref reference.Spec) bool {
 	_, _, err := s.LM.refPool.readManifestAndConfig(ref)
 	return err == nil
 }
+
+// VerifUnwrap strips the Done() spy from a layer handed out by the LayerManager.
+func VerifUnwrap(l layer.Layer) layer.Layer {
+	if sp, ok := l.(*verifSpy); ok {
+		return sp.Layer
+	}
+	return l
+}
+
+// VerifDones returns the number of Done() calls seen on l if it is a spied object.
+func VerifDones(l layer.Layer) (int, bool) {
+	if sp, ok := l.(*verifSpy); ok {
+		return sp.dones, true
+	}
+	return 0, false
+}
+
+// CachedLayer is LayerManager.layer[ref][toc] (nil if absent), read under the manager lock.
+func (s *VerifStore) CachedLayer(ref reference.Spec, toc digest.Digest) layer.Layer {
+	s.LM.mu.Lock()
+	defer s.LM.mu.Unlock()
+	if m := s.LM.layer[ref.String()]; m != nil {
+		if l, ok := m[toc.String()]; ok {
+			return l
+		}
+	}
+	return nil
+}
